@@ -2,6 +2,7 @@ package props
 
 import (
 	"context"
+	"errors"
 	"fmt"
 	"net"
 	"os"
@@ -38,6 +39,7 @@ type ctxConn struct {
 	closed    bool
 	onDrain   func() // called (once, inside Read) when the supplied bytes have all been handed out
 	blockW    bool   // Write blocks until a deadline passes or the conn is closed (like net.Pipe with a stalled peer)
+	noDL      bool   // a transport without deadline support (an ssh channel, a websocket adapter): Set*Deadline report an error and do nothing
 }
 
 func newCtxConn() *ctxConn {
@@ -120,12 +122,24 @@ func (c *ctxConn) LocalAddr() net.Addr  { return &net.TCPAddr{} }
 func (c *ctxConn) RemoteAddr() net.Addr { return &net.TCPAddr{} }
 func (c *ctxConn) SetDeadline(t time.Time) error {
 	c.mu.Lock()
-	c.wdeadline = t
+	if !c.noDL {
+		c.wdeadline = t
+	}
 	c.mu.Unlock()
 	return c.SetReadDeadline(t)
 }
 func (c *ctxConn) SetReadDeadline(t time.Time) error {
 	c.mu.Lock()
+	if c.noDL {
+		// the call is recorded (it is what the transition system talks about) but has no effect
+		if t.IsZero() {
+			c.event("clear")
+		} else {
+			c.event("fire")
+		}
+		c.mu.Unlock()
+		return errors.New("deadlines are not supported by this transport")
+	}
 	c.deadline = t
 	if t.IsZero() {
 		c.event("clear")
@@ -151,7 +165,7 @@ func genC10(env *core.Env, emit func(core.Case)) {
 	hello := h.Record(0x0301)
 	reps := env.Pick(120, 400)
 	orderings := []string{"prebuffered-cancel-after-return", "late-hello-cancel-after-return", "cancel-before-hello", "cancel-concurrent-with-hello", "cancel-after-return-then-io", "never-cancelled",
-		"cancel-when-hello-fully-read", "cancel-before-hello-peer-not-reading", "cancel-mid-hello-peer-not-reading",
+		"cancel-when-hello-fully-read", "cancel-when-hello-fully-read-no-deadlines", "cancel-before-hello-peer-not-reading", "cancel-mid-hello-peer-not-reading",
 		"cancel-after-return-then-retry-io"}
 	// an accepted ECH hello and its retry, for the ordering that goes through a HelloRetryRequest after the return
 	rkey := gen.NewKey(r, 7, "public.example", gen.AllSuites)
@@ -202,6 +216,12 @@ func genC10(env *core.Env, emit func(core.Case)) {
 					// NewConn is still running, the watcher fires while the hello is being processed
 					c.onDrain = func() { c.event("cancel"); cancel() }
 					c.Supply(hello)
+				case "cancel-when-hello-fully-read-no-deadlines":
+					// the same instant on a transport that cannot be interrupted: NewConn has the whole hello,
+					// goes on and succeeds - and the caller gets a connection that still works
+					c.noDL = true
+					c.onDrain = func() { c.event("cancel"); cancel() }
+					c.Supply(hello)
 				case "cancel-before-hello-peer-not-reading":
 					c.blockW = true
 					go func() { time.Sleep(time.Duration(rep%5) * 100 * time.Microsecond); c.Mark("cancel"); cancel() }()
@@ -243,7 +263,7 @@ func genC10(env *core.Env, emit func(core.Case)) {
 				} else {
 					c.Mark("ret-err")
 				}
-				if ord != "never-cancelled" && ord != "cancel-before-hello" && ord != "cancel-concurrent-with-hello" && ord != "cancel-when-hello-fully-read" && !c.blockW {
+				if ord != "never-cancelled" && ord != "cancel-before-hello" && ord != "cancel-concurrent-with-hello" && ord != "cancel-when-hello-fully-read" && ord != "cancel-when-hello-fully-read-no-deadlines" && !c.blockW {
 					c.Mark("cancel")
 					cancel()
 				}
@@ -285,9 +305,13 @@ func genC10(env *core.Env, emit func(core.Case)) {
 				c.mu.Lock()
 				events := append([]string{}, c.events...)
 				dl := c.deadline
+				closedByConn := c.closed && !stuck
 				c.mu.Unlock()
 				// monitors
 				w := ""
+				if err == nil && closedByConn {
+					w = "NewConn returned successfully, but the transport it returned has been closed on behalf of its context"
+				}
 				afterOK := false
 				for _, e := range events {
 					if e == "ret-ok" {
